@@ -48,7 +48,7 @@ T = {
             "schedules are sampled, not enumerated", "4 C13"),
     "C14": ('exploration', 'rapid-generated hostile frame streams + native go fuzzing against a live engine with witness clients; resource-release invariants (Terminate once per Setup, Closed fires, goroutine census)',
             'Hostile connections (admissible packets with hostile values, out-of-protocol packets, mutated/truncated frames, garbage, oversize declarations; storms sharing client ids; KillTimeout 1 ns, backend shutdown race, failing backend hooks, a subscriber that never acknowledges and then leaves, one that never acknowledges, keeps publishing and stays until the token timeout removes it) run against the engine while two witnesses receive a numbered stream; process survival, closing of the offender only, witness traffic, termination accounting and goroutine census are judged.',
-            "hostile peers' inbound data is drained (a non-reading subscriber is a documented backend limitation) except in the slow-subscriber / stalled-publisher environments, which end by that subscriber leaving or by the broker's token timeout (2 s there)", '4 C14, 9'),
+            "hostile peers' inbound data is drained (a non-reading subscriber is a documented backend limitation) except in the slow-subscriber / stalled-publisher environments, which end by that subscriber leaving or by the broker's token timeout (3 s in all C14 runs)", '4 C14, 9'),
     "C15": ('exploration', 'generated concurrent publisher/subscriber scenarios, resume scenarios with backlog on broker and client side, client inbound streams and service command sequences; per-stream monotonicity oracle',
             'Numbered messages from 1-8 concurrent publishers to 1-4 subscribers: every (publisher, QoS, subscriber) stream must arrive in order; resume bursts (PUBLISH and PUBREL) must keep their original order and precede fresh deliveries; client callback order per QoS and service command order likewise.',
             'schedules sampled (with per-operation jitter on the resumed connection)', '4 C15, 9'),
